@@ -685,11 +685,17 @@ func RunCache(sc *Scenario) *CacheOut {
 		out.violate("cache_roundtrip_differs", fmt.Sprintf("book loaded from its cache (%d entries) differs from the book that was saved (%d entries)", len(contentOf(b2)), len(saved)))
 	}
 
+	// label identifies the damage case independently of the file length
+	// (which depends on schedule-dependent links): the permille the offset was
+	// derived from, or 0 for sweeps
+	label := 0
 	try := func(kind string, at int, data []byte, mode string) bool {
 		_ = os.RemoveAll(cache)
 		switch mode {
 		case "missing":
+			label = 0
 		case "dir":
+			label = 0
 			_ = os.Mkdir(cache, 0o755)
 		default:
 			if err := os.WriteFile(cache, data, 0o644); err != nil {
@@ -701,13 +707,7 @@ func RunCache(sc *Scenario) *CacheOut {
 		out.Faults["F9_"+kind]++
 		// (offsets as permille of the file: its exact length depends on the
 		// schedule-dependent links)
-		pm := 0
-		if len(good) > 1 {
-			pm = (at*1000 + len(good) - 2) / (len(good) - 1) // inverse of offsetAt
-		}
-		if kind == "truncate" && bs.AllPrefixes {
-			pm = 0 // the exhaustive prefix sweep counts once per book
-		}
+		pm := label
 		out.Distinct[fmt.Sprintf("%s@%d", kind, pm)] = true
 		undec := mode != "file" || !gobDecodable(data)
 		if undec {
@@ -774,14 +774,17 @@ func RunCache(sc *Scenario) *CacheOut {
 			}
 		}
 	}
+	label = 0
 	for _, d := range bs.Damage {
 		switch d.Kind {
 		case "truncate":
+			label = d.At % 1001
 			k := offsetAt(d.At)
 			if !try("truncate", k, good[:k], "file") {
 				return out
 			}
 		case "flip":
+			label = d.At % 1001
 			k := offsetAt(d.At)
 			data := append([]byte{}, good...)
 			data[k] ^= 1 << uint(d.Bit%8)
@@ -789,6 +792,7 @@ func RunCache(sc *Scenario) *CacheOut {
 				return out
 			}
 		case "garbage":
+			label = d.Len % 4096
 			n := d.Len%4096 + 1
 			data := make([]byte, n)
 			for i := range data {
@@ -798,23 +802,28 @@ func RunCache(sc *Scenario) *CacheOut {
 				return out
 			}
 		case "empty":
+			label = 0
 			if !try("empty", 0, nil, "file") {
 				return out
 			}
 		case "missing":
+			label = 0
 			if !try("missing", 0, nil, "missing") {
 				return out
 			}
 		case "dir":
+			label = 0
 			if !try("directory", 0, nil, "dir") {
 				return out
 			}
 		case "append":
+			label = 0
 			data := append(append([]byte{}, good...), 0xFF, 0x00, 0x13)
 			if !try("appended", len(good), data, "file") {
 				return out
 			}
 		case "zerofill":
+			label = d.At % 1001
 			k := offsetAt(d.At)
 			data := append([]byte{}, good...)
 			for i := k; i < len(data) && i < k+d.Len%64+1; i++ {
